@@ -1,0 +1,131 @@
+//go:build verif
+
+// Verification hook (build tag "verif" only; not part of a normal build).
+//
+// With PIGEON_VERIF_DUMP=ast in the environment the command reads a grammar
+// from standard input, parses it with the generated front-end (ParseReader)
+// and prints the resulting AST in a canonical one-node-per-line text form,
+// then exits: 0 on success, 3 when the front-end rejects the text (the error
+// is printed on stderr). Nothing else in the program is changed.
+package main
+
+import (
+	"fmt"
+	"io"
+	"os"
+	"strings"
+
+	"github.com/mna/pigeon/ast"
+)
+
+func init() {
+	if os.Getenv("PIGEON_VERIF_DUMP") != "ast" {
+		return
+	}
+	g, err := ParseReader("", os.Stdin)
+	if err != nil {
+		fmt.Fprintln(os.Stderr, err)
+		os.Exit(3)
+	}
+	VerifDumpGrammar(os.Stdout, g.(*ast.Grammar), os.Getenv("PIGEON_VERIF_NOPOS") == "")
+	os.Exit(0)
+}
+
+func verifPos(p ast.Pos, withPos bool) string {
+	if !withPos {
+		return ""
+	}
+	return fmt.Sprintf("@%d:%d:%d ", p.Line, p.Col, p.Off)
+}
+
+// VerifDumpGrammar prints the AST, one node per line, children indented.
+func VerifDumpGrammar(w io.Writer, g *ast.Grammar, withPos bool) {
+	fmt.Fprintf(w, "%sgrammar\n", verifPos(g.Pos(), withPos))
+	if g.Init != nil {
+		fmt.Fprintf(w, " %sinit %q\n", verifPos(g.Init.Pos(), withPos), g.Init.Val)
+	}
+	for _, r := range g.Rules {
+		dn := "-"
+		if r.DisplayName != nil {
+			dn = fmt.Sprintf("%q", r.DisplayName.Val)
+		}
+		fmt.Fprintf(w, " %srule %s %s\n", verifPos(r.Pos(), withPos), r.Name.Val, dn)
+		verifDumpExpr(w, r.Expr, 2, withPos)
+	}
+}
+
+func verifCode(c *ast.CodeBlock) string {
+	if c == nil {
+		return "-"
+	}
+	return fmt.Sprintf("%q", c.Val)
+}
+
+func verifDumpExpr(w io.Writer, e ast.Expression, ind int, withPos bool) {
+	pad := strings.Repeat(" ", ind)
+	if e == nil {
+		fmt.Fprintf(w, "%snil\n", pad)
+		return
+	}
+	p := verifPos(e.Pos(), withPos)
+	switch e := e.(type) {
+	case *ast.ChoiceExpr:
+		fmt.Fprintf(w, "%s%schoice %d\n", pad, p, len(e.Alternatives))
+		for _, a := range e.Alternatives {
+			verifDumpExpr(w, a, ind+1, withPos)
+		}
+	case *ast.RecoveryExpr:
+		ls := make([]string, len(e.Labels))
+		for i, l := range e.Labels {
+			ls[i] = string(l)
+		}
+		fmt.Fprintf(w, "%s%srecovery %s\n", pad, p, strings.Join(ls, ","))
+		verifDumpExpr(w, e.Expr, ind+1, withPos)
+		verifDumpExpr(w, e.RecoverExpr, ind+1, withPos)
+	case *ast.ActionExpr:
+		fmt.Fprintf(w, "%s%saction %s\n", pad, p, verifCode(e.Code))
+		verifDumpExpr(w, e.Expr, ind+1, withPos)
+	case *ast.ThrowExpr:
+		fmt.Fprintf(w, "%s%sthrow %s\n", pad, p, e.Label)
+	case *ast.SeqExpr:
+		fmt.Fprintf(w, "%s%sseq %d\n", pad, p, len(e.Exprs))
+		for _, a := range e.Exprs {
+			verifDumpExpr(w, a, ind+1, withPos)
+		}
+	case *ast.LabeledExpr:
+		fmt.Fprintf(w, "%s%slabel %s\n", pad, p, e.Label.Val)
+		verifDumpExpr(w, e.Expr, ind+1, withPos)
+	case *ast.AndExpr:
+		fmt.Fprintf(w, "%s%sand\n", pad, p)
+		verifDumpExpr(w, e.Expr, ind+1, withPos)
+	case *ast.NotExpr:
+		fmt.Fprintf(w, "%s%snot\n", pad, p)
+		verifDumpExpr(w, e.Expr, ind+1, withPos)
+	case *ast.ZeroOrOneExpr:
+		fmt.Fprintf(w, "%s%sopt\n", pad, p)
+		verifDumpExpr(w, e.Expr, ind+1, withPos)
+	case *ast.ZeroOrMoreExpr:
+		fmt.Fprintf(w, "%s%sstar\n", pad, p)
+		verifDumpExpr(w, e.Expr, ind+1, withPos)
+	case *ast.OneOrMoreExpr:
+		fmt.Fprintf(w, "%s%splus\n", pad, p)
+		verifDumpExpr(w, e.Expr, ind+1, withPos)
+	case *ast.RuleRefExpr:
+		fmt.Fprintf(w, "%s%sref %s\n", pad, p, e.Name.Val)
+	case *ast.StateCodeExpr:
+		fmt.Fprintf(w, "%s%sstatecode %s\n", pad, p, verifCode(e.Code))
+	case *ast.AndCodeExpr:
+		fmt.Fprintf(w, "%s%sandcode %s\n", pad, p, verifCode(e.Code))
+	case *ast.NotCodeExpr:
+		fmt.Fprintf(w, "%s%snotcode %s\n", pad, p, verifCode(e.Code))
+	case *ast.LitMatcher:
+		fmt.Fprintf(w, "%s%slit %q %t\n", pad, p, e.Val, e.IgnoreCase)
+	case *ast.CharClassMatcher:
+		fmt.Fprintf(w, "%s%sclass %q ic=%t inv=%t chars=%v ranges=%v classes=%q\n", pad, p, e.Val,
+			e.IgnoreCase, e.Inverted, []int32(e.Chars), []int32(e.Ranges), e.UnicodeClasses)
+	case *ast.AnyMatcher:
+		fmt.Fprintf(w, "%s%sany\n", pad, p)
+	default:
+		fmt.Fprintf(w, "%s%sunknown %T\n", pad, p, e)
+	}
+}
